@@ -39,7 +39,7 @@ func defaultNwTree(code []int) nwTree {
 	return t
 }
 
-var nwNames = []string{"", "a", " ", "_", "'", "''", "'a'", "a'b", "(", ")", ",", ":", ";", "\t", "\n", "\r", "a b", "a_b", "a b_c", "[x]", "1.5", "\n\n", "a\nb", "\x00", "\x80", "é", "\xc5\x81", "日本", "\xe2\x80\xa8", "\xc2\x85", "\xef\xbb\xbfx", "a\xc2\xa0b", "[&&NHX:x=1]", "1e5", "-", "+Inf", "NaN", "0"}
+var nwNames = []string{"", "a", " ", "_", "'", "''", "'a'", "a'b", "(", ")", ",", ":", ";", "\t", "\n", "\r", "a b", "a_b", "a b_c", "[x]", "1.5", "\n\n", "a\nb", "\x00", "\x80", "é", "\xc5\x81", "日本", "\xe2\x80\xa8", "\xc2\x85", "\xef\xbb\xbfx", "a\xc2\xa0b", "[&&NHX:x=1]", "1e5", "-", "+Inf", "NaN", "0", "#H1", "x#H1", "#", "%s", "%d%%", "\\N", "=", "*", "."}
 var nwDists = []string{"-0", "1", "-1.5", "1e-05", "1e+21", "5e-324", "1.7976931348623157e+308", "NaN", "+Inf", "-Inf", "0.1"}
 
 // nwWholeDists: whole numbers at the boundaries of the integer types and of float64's exact
